@@ -76,6 +76,11 @@ def _task(args):
             st = run.random_conc(h, extra['n'], extra['seed'])
             st.update(task='random', harness=name, seconds=round(time.time() - t0, 2))
             return st
+        if kind == 'crosscheck':
+            h = run.HARNESSES[name]
+            st = run.crosscheck(h, extra['n'], extra['seed'])
+            st.update(task='crosscheck', harness=name, seconds=round(time.time() - t0, 2))
+            return st
         if kind == 'bounded':
             from pyvc import install
             install.uninstall()              # bounded stand-ins run the pristine library
@@ -171,6 +176,7 @@ def check(prop, tier, seed, jobs):
         for h in hs:
             if h.conc:
                 tasks.append(('random', h.name, {'n': 3000, 'seed': seed}))
+                tasks.append(('crosscheck', h.name, {'n': 150, 'seed': seed}))
     bmods = bounded_modules(prop)
     for b in bmods:
         tasks.append(('bounded', b, {'tier': tier, 'seed': seed, 'budget_s': 25.0 if tier == 'quick' else 600.0,
@@ -192,6 +198,10 @@ def check(prop, tier, seed, jobs):
     if bex:
         bex.shutdown()
     crashes = [r for r in results if r.get('crash')]
+    xres = [r for r in results if r.get('task') == 'crosscheck' and not r.get('crash')]
+    for r in xres:
+        if r['disagreements']:
+            crashes.append({'crash': 'ENGINE CROSS-CHECK DISAGREEMENT in %s: %s' % (r['harness'], json.dumps(r['disagreements'][:2])[:900])})
     known = load_known()
     # Lean lemmas (code-independent corollaries over contracts): hash-stamped, re-checked when the file changed
     from contracts import common as _common
@@ -354,7 +364,12 @@ def check(prop, tier, seed, jobs):
                                          'source': src, 'failure': f})
         print('VIOLATION property=%s replay=%s obligation=%s' % (prop, path, oid))
 
-    fb_ok = bool(undecided) and bool(fallback) and not bviol
+    # undecided clauses are decided by the bounded run-time check of the same contract (concrete mode of the harness) or, for
+    # harnesses without a concrete mode (session level), by the bounded stand-ins of the property, which ran on this tree
+    need = {clauses[o]['harness'] for o, _ in undecided if o in clauses} | set(undecided_harness)
+    have = {r['harness'] for r in fallback}
+    rest = need - have
+    fb_ok = bool(undecided) and not bviol and (not rest or (bool(bres) and all(not run.HARNESSES[n].conc for n in rest if n in run.HARNESSES)))
     status = 0
     if nviol:
         status = 1
@@ -393,6 +408,7 @@ def check(prop, tier, seed, jobs):
         'known_findings_reported': sorted({oid for _, oid in known_lines}),
         'samples': samples,
         'repo_tree': repo_state(),
+        'cpython_crosscheck': [{'harness': r['harness'], 'inputs_compared': r['compared'], 'disagreements': len(r['disagreements'])} for r in xres],
         'lean_lemmas': {'file': 'lean/Lemmas.lean', 'status': (lean.stdout.strip().splitlines() or ['?'])[-1], 'cited_by_the_contracts_of_this_run': sorted(_common.LEMMAS_USED) or 'see contracts/*.py (lemma(...))'},
         'rewritten_functions': sorted(install.rewritten_texts()),
     }
